@@ -226,7 +226,9 @@ func verifyFunction(L *Loaded, fn *ssa.Function, fs *FuncSpec) (res *FuncResult)
 		// implicit run-time panics (bounds, nil, ...) must be unreachable; declared panics are the
 		// explicit panic statements and the panics of callees
 		implicit := !strings.HasPrefix(e.What, "panic")
-		if hasPanics && !implicit {
+		if fs.Flags["maypanic"] && !implicit {
+			// the function rejects bad arguments by panicking; when it does so is not specified here
+		} else if hasPanics && !implicit {
 			vc.oblige("panics=>", fmt.Sprintf("%s#panics=>[%s]", fname, what), e.Cond, P, e.Pos)
 		} else {
 			vc.oblige("safety", fmt.Sprintf("%s#safe[%s]", fname, what), e.Cond, tFalse, e.Pos)
